@@ -1,4 +1,5 @@
 import AaVerif.Aa.ResolveLemmas
+import AaVerif.Aa.ResolveCycle
 /-!
 # C13 — variable resolution is plain substitution and keeps the rest of the preamble
 
@@ -115,10 +116,29 @@ def var (n : String) (vals : List String) (define : Bool := true) : Rule :=
 theorem C13_self_reference_is_error :
     errOf (resolveValues [var "a" ["@{a}/x"]] 10 "@{a}".toList) = some .recursive := by decide +kernel
 
-/-- **Known finding.** An indirect cycle is not detected: the recursion of the model runs out of
-any fuel we give it (the real code recurses until it runs out of memory). -/
-theorem C13_indirect_cycle_diverges :
+/-- an indirect cycle is reported as well (since the fix commit: `Resolve` looks for a variable that reaches itself
+through its references before it expands anything); without that test the expansion never ends - the core of the model
+runs out of any fuel, the Go code of the pinned tree ran out of memory (the former known finding K_indirectCycle) -/
+theorem C13_indirect_cycle_is_error :
+    errOf (resolve 60 [var "a" ["@{b}/x"], var "b" ["@{a}/y"]] ["@{a}".toList]) = some .recursive ∧
+    errOf (resolve 60 [var "a" ["@{b}/x"], var "b" ["@{c}"], var "c" ["/y@{a}"]] []) = some .recursive ∧
     errOf (resolveValues [var "a" ["@{b}/x"], var "b" ["@{a}/y"]] 60 "@{a}".toList) = some .outOfFuel := by
+  refine ⟨?_, ?_, ?_⟩ <;> decide +kernel
+
+/-- **The cycle test misses no cycle**: whenever a variable rule `v` refers to a name from which a chain of direct
+references leads back to the name of `v` (chains up to the number of rules: a cycle that visits no name twice is never
+longer), `Resolve` reports an error - it does not start the expansion that would never end. -/
+theorem C13_cycle_is_reported (fuel : Nat) (pre : List Rule) (att : List (List Char)) (folded : List Rule)
+    (hf : foldAppends pre [] [] = .ok folded) (v : Rule) (hv : v ∈ folded) (hvar : isVar v = true)
+    (y : List Char) (chain : List (List Char)) (hy : y ∈ refsOf folded (vName v)) (hc : Chain folded y chain)
+    (hend : (y :: chain).getLast? = some (vName v)) (hlen : chain.length ≤ folded.length) :
+    resolve fuel pre att = .error .recursive := by
+  unfold resolve
+  rw [hf]
+  simp only [hasCycle_of_chain folded v hv hvar y chain hy hc hend hlen, if_true]
+
+/-- the cycle test does not reject a preamble without one: diamonds and repeated references are fine -/
+example : hasCycle [var "a" ["@{b}@{c}"], var "b" ["@{d}/x", "@{d}"], var "c" ["@{d}"], var "d" ["/y"]] = false := by
   decide +kernel
 
 /-- non-vacuity: definitions, an append placed after a comment and an include, nested references -/
